@@ -72,6 +72,19 @@ def case_insensitive_strxfrm(s: str) -> str:
     return s.casefold()
 
 
+# HTML5 "ASCII case-insensitive": only the letters A-Z and a-z are folded
+ASCII_LOWER_TABLE = {cp: cp + 32 for cp in range(ord('A'), ord('Z') + 1)}
+
+
+def html_ascii_case_insensitive_strxfrm(s: str) -> str:
+    return s.translate(ASCII_LOWER_TABLE)
+
+
+def html_ascii_case_insensitive_strcoll(s1: str, s2: str) -> int:
+    k1, k2 = s1.translate(ASCII_LOWER_TABLE), s2.translate(ASCII_LOWER_TABLE)
+    return (k1 > k2) - (k1 < k2)
+
+
 class CollationManager(context_class_base):
     """
     Context Manager for collations. Provide helper operators as methods.
@@ -103,8 +116,8 @@ class CollationManager(context_class_base):
             self.strxfrm = unicode_codepoint_strxfrm
         elif collation == HTML_ASCII_CASE_INSENSITIVE_COLLATION:
             self.lc_collate = None
-            self.strcoll = case_insensitive_strcoll
-            self.strxfrm = case_insensitive_strxfrm
+            self.strcoll = html_ascii_case_insensitive_strcoll
+            self.strxfrm = html_ascii_case_insensitive_strxfrm
         elif collation == XQUERY_TEST_SUITE_CASEBLIND_COLLATION:
             self.lc_collate = None
             self.strcoll = case_insensitive_strcoll
